@@ -5,6 +5,8 @@ def groups(tier):
              replay='reannounce', bound='control-flow skeleton (E3) with the in_flight facet; loops unrolled twice')
     return [Group('schedule.inflight', entry='h_schedule', clause='schedule_assigned_fetch clears in_flight only after releasing the peer slot', **K),
             Group('dispatch.inflight', entry='h_dispatch', clause='dispatch_pending_fetch sets in_flight exactly when it took a peer slot', **K),
+            # (a contract for schedule_next_fetch_attempt's back-off arithmetic exists in contracts/backoff.spec; the product of two symbolic
+            #  64-bit values is not decided by cvc5 / z3 / SAT within 4 minutes, so it is not part of the check)
             Group('clear.inflight', entry='h_clear', clause='clear_pending_fetch forgets a fetch only after releasing the slot it holds', **K)]
 
 
